@@ -299,9 +299,56 @@ def all_rows(n):
     return [''.join(p) for p in itertools.product('01', repeat=1 << n)]
 
 
+N_SHIPPED = 349724
+
+
+def scratch_connections(ctx):
+    """someone else in this process uses a connection to each shipped file as a scratch pad (adds circuits in memory,
+    never saves) and closes it: what a NEW connection to the shipped file hands out must be the shipped entries only"""
+    from cirbo.circuits_db.db import CircuitsDatabase
+    from cirbo.circuits_db.data_utils import DEFAULT_AIG_DB_PATH, DEFAULT_XAIG_DB_PATH
+    foreign = {'gates': [['x0', 'INPUT', []], ['x1', 'INPUT', []], ['x2', 'INPUT', []], ['x3', 'INPUT', []],
+                         ['a', 'XOR', ['x0', 'x1']], ['b', 'XOR', ['x2', 'x3']], ['c', 'XOR', ['a', 'b']]],
+               'inputs': ['x0', 'x1', 'x2', 'x3'], 'outputs': ['c'], 'blocks': []}
+    info = {}
+    for name, p in (('aig', DEFAULT_AIG_DB_PATH), ('xaig', DEFAULT_XAIG_DB_PATH)):
+        try:
+            c = circ_from_json(realize(foreign))
+            with CircuitsDatabase(p) as d:
+                d.add_circuit(c)
+                d.add_circuit(c, label='verif_scratch_label')
+            info[name] = c.get_truth_table()
+            ctx.count('scratch_connection:' + name)
+        except Exception as e:  # noqa: BLE001
+            ctx.count('scratch_connection_refused:' + err_name(e))
+    return info
+
+
+def check_after_scratch(ctx, dbs, info):
+    for name, db in dbs.items():
+        if name not in info:
+            continue
+        inp = {'db': name, 'history': 'connection A: open shipped file, add_circuit(4-input parity) twice (by table, by label), close; '
+                                      'connection B: open the same file'}
+        n = len(db._dict)
+        try:
+            by_t = db.get_by_raw_truth_table(info[name])
+            by_l = db.get_by_label('verif_scratch_label')
+        except Exception as e:  # noqa: BLE001
+            ctx.violation('db.foreign_entry', f'{name}: lookup on a new connection raised {err_name(e)}', input=inp)
+            continue
+        if by_t is not None or by_l is not None:
+            ctx.violation('db.foreign_entry', f'{name}: a new connection to the shipped file returns a circuit that another connection '
+                          f'added in memory (a 4-input table / a label the shipped file does not store; XOR gates)', input=inp)
+        elif n != N_SHIPPED:
+            ctx.violation('db.count', f'{name}: a new connection to the shipped file has {n} entries, the shipped file stores {N_SHIPPED}', input=inp)
+
+
 def search(ctx):
     rng = ctx.rng('search')
+    info = scratch_connections(ctx)
     dbs = open_dbs()
+    check_after_scratch(ctx, dbs, info)
     # (1) sweep of the shipped entries
     for name, db in dbs.items():
         for key in pick_keys(ctx, rng, db, ctx.scale(12000, 10 ** 9)):
